@@ -123,6 +123,51 @@ func worldGroups(w *World) {
 			return strings.TrimSpace(strings.TrimPrefix(line, "ID ")), true, ""
 		}
 	}
+	// a sibling group with stable members right next to the one under test: same host, restricted to another
+	// http user (http, tcpmux), or the neighbouring port (tcp). Whatever happens to the group under test, the
+	// sibling has live members all the time and must keep serving.
+	var sib *lcClient
+	if w.KnobBool("sibling_group", 60) {
+		sib = env.newClient("", 1)
+		if rr, err := sib.login(""); err != nil || mstr(rr, "error") != "" {
+			w.Fail("sibling login: %v %v", err, rr)
+		}
+		for _, n := range []string{"s0", "s1"} {
+			f := M{"proxy_name": n, "group": "S", "group_key": "sib-key"}
+			switch kind {
+			case "tcp":
+				f["proxy_type"], f["remote_port"] = "tcp", 20003
+			case "http":
+				f["proxy_type"], f["custom_domains"], f["route_by_http_user"] = "http", []string{domain}, "sib"
+			default:
+				f["proxy_type"], f["multiplexer"], f["custom_domains"], f["route_by_http_user"] = "tcpmux", "httpconnect", []string{domain}, "sib"
+			}
+			if rr, got := sib.register(f); !got || mstr(rr, "error") != "" {
+				w.Fail("sibling group register: %v", rr)
+			}
+		}
+	}
+	checkSibling := func(when string) {
+		if sib == nil {
+			return
+		}
+		w.Check("C13.sibling-group-serves")
+		served, detail := "", ""
+		switch kind {
+		case "tcp":
+			res := env.probeTCP("10.0.0.1:20003", 8*time.Second)
+			served, detail = res.ServedBy, fmt.Sprint(res.Err)
+		case "http":
+			sb, st, err := env.probeHTTPUser(domain, "/", "sib", 8*time.Second)
+			served, detail = sb, fmt.Sprintf("status %d err %v", st, err)
+		default:
+			sb, err := env.probeCONNECT(domain, "sib", 8*time.Second)
+			served, detail = sb, fmt.Sprint(err)
+		}
+		if served != sib.Name+"/s0" && served != sib.Name+"/s1" {
+			viol("serve", "sibling-group-stranded", "%s: another group with two live members on the same host (other http user / next port) was not served: got %q (%s); history: %v", when, served, detail, history)
+		}
+	}
 	memberIDs := func() []string {
 		var ids []string
 		for n, c := range members {
@@ -132,6 +177,7 @@ func worldGroups(w *World) {
 		return ids
 	}
 	checkProbe := func(when string) {
+		defer checkSibling(when)
 		w.Check("C13.live-member-serves")
 		served, up, detail := probe()
 		ids := memberIDs()
